@@ -12,6 +12,7 @@ fn main() {
         "c02" => c02::run(&args),
         "c01v" => c01::run_verifier(&args),
         "c01e" => c01::run_e2e(&args),
+        "c01s" => c01::run_sessions(&args),
         other => {
             eprintln!("unknown subcommand {other}");
             std::process::exit(2);
@@ -56,18 +57,18 @@ fn mm(what: &str, exp: impl ToString, got: impl ToString, input: impl AsRef<str>
 }
 
 fn fs<'a>(c: &'a Value, k: &str) -> &'a str {
-    c.get(k).and_then(|v| v.as_str()).unwrap_or_else(|| panic!("case field {k} missing in {c}"))
+    c.get(k).and_then(|v| v.as_str()).unwrap_or_else(|| panic!("harness: case field {k} missing in {c}"))
 }
 fn fu(c: &Value, k: &str) -> usize {
-    c.get(k).and_then(|v| v.as_u64()).unwrap_or_else(|| panic!("case field {k} missing in {c}")) as usize
+    c.get(k).and_then(|v| v.as_u64()).unwrap_or_else(|| panic!("harness: case field {k} missing in {c}")) as usize
 }
 fn fb(c: &Value, k: &str) -> bool {
-    c.get(k).and_then(|v| v.as_bool()).unwrap_or_else(|| panic!("case field {k} missing in {c}"))
+    c.get(k).and_then(|v| v.as_bool()).unwrap_or_else(|| panic!("harness: case field {k} missing in {c}"))
 }
 fn fset(c: &Value, k: &str) -> Vec<String> {
     c.get(k)
         .and_then(|v| v.as_array())
-        .unwrap_or_else(|| panic!("case field {k} missing in {c}"))
+        .unwrap_or_else(|| panic!("harness: case field {k} missing in {c}"))
         .iter()
         .map(|x| x.as_str().expect("string").to_string())
         .collect()
@@ -92,6 +93,7 @@ fn drive(args: &Args, f: impl Fn(&Value, &mut ChaCha8Rng) -> R) {
             let m = match r {
                 Ok(Ok(())) => continue,
                 Ok(Err(m)) => m,
+                Err(p) if p.starts_with("harness: ") => mm("harness-assumption", "", p, ""),
                 Err(p) => mm("panic", "no panic", p, ""),
             };
             if fails.len() < 3 {
@@ -127,7 +129,8 @@ mod c02 {
             "caddrstr" => caddrstr(c, rng),
             "sig" => sig(c, rng),
             "matrix" => matrix(c, rng),
-            other => panic!("unknown table {other}"),
+            "layout" => layout(c, rng),
+            other => panic!("harness: unknown table {other}"),
         });
     }
 
@@ -186,7 +189,7 @@ mod c02 {
                 _ => return b,
             }
         }
-        panic!("could not sample material of class {class}");
+        panic!("harness: could not sample material of class {class}");
     }
 
     // ------------------------------------------------------------------ strings
@@ -228,7 +231,7 @@ mod c02 {
             "pad" => "=",
             "na" => "\u{e9}\u{fc}\u{f1}\u{3a9}",
             "oth" => "!_ -.~@/",
-            other => panic!("unknown kind {other}"),
+            other => panic!("harness: unknown kind {other}"),
         }
     }
 
@@ -268,7 +271,7 @@ mod c02 {
             kinds.swap(i, j);
         }
         let s: String = kinds.iter().map(|k| pick_char(rng, k, alpha)).collect();
-        assert_eq!(s.len(), len, "generated string has the wrong byte length");
+        assert_eq!(s.len(), len, "harness: generated string has the wrong byte length");
         s
     }
 
@@ -297,7 +300,7 @@ mod c02 {
             "b32Mixed" => alternate_case(&BASE32_NOPAD.encode(b), true),
             "z32" => z32().encode(b),
             "b32hex" => BASE32_DNSSEC.encode(b),
-            other => panic!("class {other} does not carry material"),
+            other => panic!("harness: class {other} does not carry material"),
         }
     }
 
@@ -306,7 +309,7 @@ mod c02 {
             "b32Upper" | "b32Lower" | "b32Mixed" => "ABCDEFGHIJKLMNOPQRSTUVWXYZ234567",
             "z32" => "ybndrfg8ejkmcpqxot1uwisza345h769",
             "b32hex" => "0123456789abcdefghijklmnopqrstuv",
-            other => panic!("{other} is not a 5-bit class"),
+            other => panic!("harness: {other} is not a 5-bit class"),
         }
     }
 
@@ -419,7 +422,7 @@ mod c02 {
                 break;
             }
         }
-        assert!(found, "could not build a string of class {alpha}/{len}");
+        assert!(found, "harness: could not build a string of class {alpha}/{len}");
         let exp = if accept { "accept" } else { "reject" };
         match dec {
             "pk_fromstr" | "pk_json" | "pk_z32" => {
@@ -471,7 +474,7 @@ mod c02 {
                     }
                 }
             },
-            other => panic!("unknown decoder {other}"),
+            other => panic!("harness: unknown decoder {other}"),
         }
         Ok(())
     }
@@ -556,7 +559,7 @@ mod c02 {
                     let _ = pk.verify(b"x", &sg);
                 }
             }
-            other => panic!("unknown decoder {other}"),
+            other => panic!("harness: unknown decoder {other}"),
         }
         Ok(())
     }
@@ -568,7 +571,7 @@ mod c02 {
             "one" => 1,
             "mid" => rng.random_range(0x10_0000u64..=0xff_ffff),
             "max" => u64::MAX,
-            other => panic!("unknown id class {other}"),
+            other => panic!("harness: unknown id class {other}"),
         }
     }
 
@@ -640,7 +643,7 @@ mod c02 {
                 let s = format!("{:x}_{}", id, HEXLOWER.encode(&data));
                 CustomAddr::from_str(&s).map_err(|e| mm("from_str verdict", "accept", e, &input))?
             }
-            other => panic!("unknown route {other}"),
+            other => panic!("harness: unknown route {other}"),
         };
         // the lengths the spec computes through its model of the representation
         if v.data().len() != fu(c, "data_len") {
@@ -713,7 +716,7 @@ mod c02 {
             "nonhex" => (format!("{canon}g"), None),
             "zerox" => (format!("0x{canon}"), None),
             "minus" => (format!("-{canon}"), None),
-            other => panic!("unknown id form {other}"),
+            other => panic!("harness: unknown id form {other}"),
         };
         let n = [0usize, 1, 6, 29, 30, 31, 32, 64][rng.random_range(0..8)].max(if dataf == "empty" { 0 } else { 1 });
         let mut data = vec![0u8; n];
@@ -729,10 +732,10 @@ mod c02 {
             "odd" => (hex[..hex.len() - 1].to_string(), None),
             "nonhex" => (format!("{hex}zz"), None),
             "hassep" => (format!("{hex}_{hex}"), None),
-            other => panic!("unknown data form {other}"),
+            other => panic!("harness: unknown data form {other}"),
         };
         let s = if sep { format!("{id_s}_{data_s}") } else { format!("{id_s}{data_s}") };
-        assert_eq!(s.contains('_'), sep, "separator presence");
+        assert_eq!(s.contains('_'), sep, "harness: separator presence");
         let r = CustomAddr::from_str(&s);
         verdict3("CustomAddr::from_str verdict", accept, r.is_ok(), &r.as_ref().map(|v| v.to_string()).unwrap_or_else(|e| e.to_string()), &s)?;
         if let Ok(v) = r {
@@ -838,7 +841,7 @@ mod c02 {
                 }
                 d
             }
-            other => panic!("unknown tamper {other}"),
+            other => panic!("harness: unknown tamper {other}"),
         };
         let got = key_of(pk_n).public().verify(msg_of(msg_n), &sg).is_ok();
         if got != ok {
@@ -860,7 +863,7 @@ mod c02 {
             format!("https://{}.EXAMPLE.com/", label.to_ascii_uppercase()),
         ];
         let s = &forms[rng.random_range(0..forms.len())];
-        RelayUrl::from_str(s).unwrap_or_else(|e| panic!("sample url {s}: {e}"))
+        RelayUrl::from_str(s).unwrap_or_else(|e| panic!("harness: sample url {s}: {e}"))
     }
 
     fn random_custom(rng: &mut ChaCha8Rng, heap: bool) -> CustomAddr {
@@ -878,7 +881,7 @@ mod c02 {
             "relay" => TransportAddr::Relay(random_relay_url(rng)),
             "cinline" => TransportAddr::Custom(random_custom(rng, false)),
             "cheap" => TransportAddr::Custom(random_custom(rng, true)),
-            other => panic!("unknown addr kind {other}"),
+            other => panic!("harness: unknown addr kind {other}"),
         }
     }
 
@@ -895,7 +898,7 @@ mod c02 {
                 let w = serde_json::to_string(v).map_err(|e| mm("json ser", "Ok", e, input))?;
                 serde_json::from_str(&w).map_err(|e| mm("json de of own output", "Ok", format!("{e} in {w}"), input))
             }
-            other => panic!("not a serde encoding: {other}"),
+            other => panic!("harness: not a serde encoding: {other}"),
         }
     }
 
@@ -1049,8 +1052,159 @@ mod c02 {
                 };
                 same(&what, &v, &back, &input)
             }
-            other => panic!("unknown type {other} ({support})"),
+            other => panic!("harness: unknown type {other} ({support})"),
         }
+    }
+
+    // ------------------------------------------------------------------ table layout
+    /// Decodes `wire` as `ty`, exercises whatever comes out, and reports (accepted, content bytes).
+    fn decode_exercise(ty: &str, wire: &[u8], input: &str) -> Result<Option<Vec<u8>>, Mismatch> {
+        fn stable<T: serde::Serialize + serde::de::DeserializeOwned + PartialEq + std::fmt::Debug>(v: &T, input: &str) -> R {
+            let _ = format!("{v:?}");
+            let w = postcard::to_stdvec(v).map_err(|e| mm("re-encoding a decoded value", "Ok", e, input))?;
+            let back: T = postcard::from_bytes(&w).map_err(|e| mm("decoding a re-encoded value", "Ok", e, input))?;
+            same("re-encoded value decodes to itself", v, &back, input)
+        }
+        Ok(match ty {
+            "pk" => match postcard::from_bytes::<PublicKey>(wire) {
+                Ok(v) => {
+                    if !is_point(v.as_bytes()) {
+                        return Err(mm("accepted public key is a curve point", "point", "non-point", input));
+                    }
+                    exercise_pk(&v, input)?;
+                    Some(v.as_bytes().to_vec())
+                }
+                Err(_) => None,
+            },
+            "sig" => match postcard::from_bytes::<Signature>(wire) {
+                Ok(v) => {
+                    let _ = (v.to_string(), format!("{v:?}"));
+                    stable(&v, input)?;
+                    Some(v.to_bytes().to_vec())
+                }
+                Err(_) => None,
+            },
+            "caddr" => match postcard::from_bytes::<CustomAddr>(wire) {
+                Ok(v) => {
+                    check_caddr(&v, v.id(), &v.data().to_vec(), input)?;
+                    stable(&v, input)?;
+                    Some(v.data().to_vec())
+                }
+                Err(_) => None,
+            },
+            "taddr" => match postcard::from_bytes::<TransportAddr>(wire) {
+                Ok(v) => {
+                    let _ = (v.to_string(), v.is_relay(), v.is_ip(), v.is_custom());
+                    if let TransportAddr::Custom(cu) = &v {
+                        check_caddr(cu, cu.id(), &cu.data().to_vec(), input)?;
+                    }
+                    stable(&v, input)?;
+                    Some(Vec::new())
+                }
+                Err(_) => None,
+            },
+            "eaddr" => match postcard::from_bytes::<EndpointAddr>(wire) {
+                Ok(v) => {
+                    if !is_point(v.id.as_bytes()) {
+                        return Err(mm("accepted endpoint id is a curve point", "point", "non-point", input));
+                    }
+                    exercise_pk(&v.id, input)?;
+                    let _ = (v.is_empty(), v.ip_addrs().count(), v.relay_urls().count());
+                    for a in &v.addrs {
+                        let _ = a.to_string();
+                        if let TransportAddr::Custom(cu) = a {
+                            check_caddr(cu, cu.id(), &cu.data().to_vec(), input)?;
+                        }
+                    }
+                    stable(&v, input)?;
+                    Some(v.id.as_bytes().to_vec())
+                }
+                Err(_) => None,
+            },
+            other => panic!("harness: unknown layout type {other}"),
+        })
+    }
+
+    fn layout(c: &Value, rng: &mut ChaCha8Rng) -> R {
+        let (ty, field, fname, nfields, mutation, verdict) =
+            (fs(c, "type"), fu(c, "field"), fs(c, "fname"), fu(c, "nfields"), fs(c, "mut"), fs(c, "verdict"));
+        // the value and its wire form field by field (each field encoded on its own)
+        let pk = PublicKey::from_bytes(&material(rng, "point")).map_err(|e| mm("from_bytes(point)", "Ok", e, ""))?;
+        let kinds = ["ip4", "ip6", "relay", "cinline", "cheap"];
+        let (whole, fields): (Vec<u8>, Vec<Vec<u8>>) = match ty {
+            "pk" => (postcard::to_stdvec(&pk).expect("ser"), vec![pk.as_bytes().to_vec()]),
+            "sig" => {
+                let sg = SecretKey::from_bytes(&rng.random()).sign(b"layout");
+                (postcard::to_stdvec(&sg).expect("ser"), vec![sg.to_bytes().to_vec()])
+            }
+            "caddr" => {
+                let heap = rng.random_bool(0.5);
+                let mut v = random_custom(rng, heap);
+                if v.data().is_empty() {
+                    v = CustomAddr::from_parts(v.id(), &[rng.random()]);
+                }
+                let f = vec![
+                    postcard::to_stdvec(&v.id()).expect("ser"),
+                    postcard::to_stdvec(&(v.data().len() as u64)).expect("ser"),
+                    v.data().to_vec(),
+                ];
+                (postcard::to_stdvec(&v).expect("ser"), f)
+            }
+            "taddr" => {
+                let v = { let k = kinds[rng.random_range(0..kinds.len())]; random_taddr(rng, k) };
+                let w = postcard::to_stdvec(&v).expect("ser");
+                (w.clone(), vec![w[..1].to_vec(), w[1..].to_vec()])
+            }
+            "eaddr" => {
+                let v = loop {
+                    let a = { let k = kinds[rng.random_range(0..kinds.len())]; random_taddr(rng, k) };
+                    let b = { let k = kinds[rng.random_range(0..kinds.len())]; random_taddr(rng, k) };
+                    if a != b {
+                        break EndpointAddr::from_parts(pk, [a, b]);
+                    }
+                };
+                let mut f = vec![pk.as_bytes().to_vec(), vec![2u8]];
+                for a in &v.addrs {
+                    f.push(postcard::to_stdvec(a).expect("ser"));
+                }
+                (postcard::to_stdvec(&v).expect("ser"), f)
+            }
+            other => panic!("harness: unknown layout type {other}"),
+        };
+        if fields.len() != nfields || fields.concat() != whole {
+            return Err(mm("harness-assumption: postcard layout is the spec's field sequence", HEXLOWER.encode(&fields.concat()), HEXLOWER.encode(&whole), ty));
+        }
+        let start: usize = fields[..field - 1].iter().map(|f| f.len()).sum();
+        let flen = fields[field - 1].len();
+        assert!(flen > 0, "harness: empty field {fname}");
+        let mut wire = whole.clone();
+        match mutation {
+            "truncate" => wire.truncate(start),
+            "flip" => wire[start + rng.random_range(0..flen)] ^= 1 << rng.random_range(0..8),
+            "extend" => wire.push(rng.random()),
+            other => panic!("harness: unknown mutation {other}"),
+        }
+        let input = format!("{ty} {mutation} field {field} ({fname}): {} -> {}", HEXLOWER.encode(&whole), HEXLOWER.encode(&wire));
+        let got = decode_exercise(ty, &wire, &input)?;
+        let content = &wire[start.min(wire.len())..(start + flen).min(wire.len())];
+        let want = match verdict {
+            "no" => Some(false),
+            "yes" => Some(true),
+            "point" => Some(is_point(content.try_into().expect("32-byte key field"))),
+            "either" => None,
+            other => panic!("harness: unknown verdict {other}"),
+        };
+        if let Some(w) = want {
+            if got.is_some() != w {
+                return Err(mm("postcard decode verdict", if w { "accept" } else { "reject" }, if got.is_some() { "accept" } else { "reject" }, &input));
+            }
+        }
+        if let (Some(true), Some(bytes)) = (want, got) {
+            if ty != "taddr" && bytes != content {
+                return Err(mm("decoded content is the mutated field", HEXLOWER.encode(content), HEXLOWER.encode(&bytes), &input));
+            }
+        }
+        Ok(())
     }
 }
 
@@ -1152,7 +1306,7 @@ mod c01 {
             Self { keys }
         }
         fn sk(&self, k: &str) -> &SecretKey {
-            self.keys.get(k).unwrap_or_else(|| panic!("unknown key name {k}"))
+            self.keys.get(k).unwrap_or_else(|| panic!("harness: unknown key name {k}"))
         }
         fn pk(&self, k: &str) -> PublicKey {
             self.sk(k).public()
@@ -1211,7 +1365,7 @@ mod c01 {
                 cs[51] = syms[(v & 0x10) | rng.random_range(1..16usize)];
                 format!("{}.iroh.invalid", cs.into_iter().collect::<String>())
             }
-            other => panic!("unknown name form {other}"),
+            other => panic!("harness: unknown name form {other}"),
         })
     }
 
@@ -1248,7 +1402,7 @@ mod c01 {
                 v
             }
             "empty" => Vec::new(),
-            other => panic!("unknown ee class {other}"),
+            other => panic!("harness: unknown ee class {other}"),
         }
     }
 
@@ -1352,8 +1506,8 @@ mod c01 {
 
     pub fn run_verifier(args: &Args) {
         let (offers_auth, srv_raw, cli_raw, s1, s2) = hooks::policy();
-        assert!(offers_auth && srv_raw && cli_raw, "verifier policy: client auth offered and raw public keys required");
-        assert!(s1 == vec![ED25519] && s2 == vec![ED25519], "verifier policy: only Ed25519 is advertised");
+        assert!(offers_auth && srv_raw && cli_raw, "harness: verifier policy: client auth offered and raw public keys required");
+        assert!(s1 == vec![ED25519] && s2 == vec![ED25519], "harness: verifier policy: only Ed25519 is advertised");
         drive(args, verifier_case);
     }
 
@@ -1489,6 +1643,112 @@ mod c01 {
         let rt = tokio::runtime::Builder::new_multi_thread().worker_threads(4).enable_all().build().expect("runtime");
         for c in &cases {
             let obs = rt.block_on(e2e_case(c, seed));
+            out.emit(&obs);
+        }
+        out.finish();
+    }
+
+    // ------------------------------------------------------------------ several dials of one endpoint
+    #[derive(Serialize, Default)]
+    struct DialObs {
+        ok: bool,
+        remote: String,
+        error: String,
+        server_remote: String,
+    }
+    #[derive(Serialize, Default)]
+    struct SessObs {
+        idx: u64,
+        env_error: Option<String>,
+        dials: Vec<DialObs>,
+        elapsed_ms: u64,
+    }
+
+    /// Replays one behaviour of TlsSession.tla: one dialer endpoint, one server endpoint per key.
+    async fn session_case(c: &Value, seed: u64) -> SessObs {
+        let idx = c.get("idx").and_then(|v| v.as_u64()).expect("idx");
+        let mut rng = case_rng(seed, idx, 0);
+        let w = World::new(&mut rng);
+        let mut obs = SessObs { idx, ..Default::default() };
+        let t0 = std::time::Instant::now();
+        let dialer_key = SecretKey::from_bytes(&rng.random());
+        let (client, _) = match bind(dialer_key.clone()).await {
+            Ok(x) => x,
+            Err(e) => {
+                obs.env_error = Some(e);
+                return obs;
+            }
+        };
+        let mut servers: BTreeMap<&'static str, (Endpoint, SocketAddr, tokio::sync::mpsc::UnboundedReceiver<Result<PublicKey, String>>)> = BTreeMap::new();
+        let mut tasks = Vec::new();
+        for k in KEYS {
+            let (ep, addr) = match bind(w.sk(k).clone()).await {
+                Ok(x) => x,
+                Err(e) => {
+                    obs.env_error = Some(e);
+                    return obs;
+                }
+            };
+            let (tx, rx) = tokio::sync::mpsc::unbounded_channel::<Result<PublicKey, String>>();
+            let srv = ep.clone();
+            tasks.push(tokio::spawn(async move {
+                while let Some(incoming) = srv.accept().await {
+                    let tx = tx.clone();
+                    tokio::spawn(async move {
+                        match incoming.await {
+                            Ok(conn) => {
+                                let _ = tx.send(Ok(conn.remote_id()));
+                                conn.closed().await;
+                            }
+                            Err(e) => {
+                                let _ = tx.send(Err(format!("{e:?}")));
+                            }
+                        }
+                    });
+                }
+            }));
+            servers.insert(k, (ep, addr, rx));
+        }
+        for d in c.get("dials").and_then(|v| v.as_array()).expect("dials") {
+            let (dial, at) = (fs(d, "dial"), fs(d, "at"));
+            let (_, saddr, rx) = servers.get_mut(at).expect("server");
+            while rx.try_recv().is_ok() {}
+            let target = EndpointAddr::from_parts(w.pk(dial), [TransportAddr::Ip(*saddr)]);
+            let mut o = DialObs::default();
+            match tokio::time::timeout(Duration::from_secs(20), client.connect(target, ALPN)).await {
+                Err(_) => o.error = "timeout".into(),
+                Ok(Err(e)) => o.error = format!("{e:?}"),
+                Ok(Ok(conn)) => {
+                    o.ok = true;
+                    o.remote = w.name_of(&conn.remote_id());
+                    if let Ok(Some(Ok(pk))) = tokio::time::timeout(Duration::from_secs(10), rx.recv()).await {
+                        o.server_remote = if pk == dialer_key.public() { "dialer".into() } else { w.name_of(&pk) };
+                    }
+                    // leave time for the session tickets that follow the handshake to arrive
+                    tokio::time::sleep(Duration::from_millis(150)).await;
+                    conn.close(0u32.into(), b"done");
+                }
+            }
+            obs.dials.push(o);
+        }
+        client.close().await;
+        for (_, (ep, _, _)) in servers {
+            ep.close().await;
+        }
+        for t in tasks {
+            t.abort();
+        }
+        obs.elapsed_ms = t0.elapsed().as_millis() as u64;
+        obs
+    }
+
+    pub fn run_sessions(args: &Args) {
+        let cases: Vec<Value> = read_ndjson(&args.path("in"));
+        let mut out = NdjsonOut::create(&args.path("out"));
+        let seed: u64 = std::env::var("VERIF_SEED").ok().and_then(|s| s.parse().ok()).unwrap_or(1);
+        let rt = tokio::runtime::Builder::new_multi_thread().worker_threads(4).enable_all().build().expect("runtime");
+        for c in &cases {
+            let obs = rt.block_on(session_case(c, seed));
             out.emit(&obs);
         }
         out.finish();
